@@ -256,7 +256,7 @@ class CallGraph:
             return None, []
         hint = None
         if isinstance(recv, ast.Name):
-            hint = RECEIVER_HINTS.get(recv.id)
+            hint = RECEIVER_HINTS.get(recv.id) or self._local_hint(caller, recv.id)
             # a class referenced by name: `Rule.annotate(...)`, `LogicalType.any_of(...)`
             if hint is None and recv.id in self.h.by_name:
                 hint = recv.id
@@ -273,6 +273,42 @@ class CallGraph:
             # an unknown receiver with a container/str method name: a builtin object unless only dict-subclass code
             return None, []
         return "call", cands
+
+    ATTR_HINTS = {"transformer": "TypeTransformer", "options": "Options", "context": "RuntimeContext",
+                  "registry": "TypeRegistry", "__parser__": "BaseParser", "parser": "BaseParser", "rule_cls": "Rule"}
+
+    def _local_hint(self, caller: FuncInfo, name: str) -> Optional[str]:
+        """the class family of a local, from the function's own text (whatever the local is called): an
+        `isinstance(<name>, Class)` test, an annotation `<name>: Class`, or a binding from `<x>.__parser__` / `.options` /
+        `.transformer` / `.context` (also through getattr / .get with that attribute name)"""
+        cache = self.__dict__.setdefault("_hint_cache", {})
+        key = (caller.ref, name)
+        if key in cache:
+            return cache[key]
+        hint = None
+        for x in walk_shallow(caller.node):
+            if isinstance(x, ast.Call) and isinstance(x.func, ast.Name) and x.func.id == "isinstance" and len(x.args) == 2 \
+                    and isinstance(x.args[0], ast.Name) and x.args[0].id == name:
+                cands = x.args[1].elts if isinstance(x.args[1], ast.Tuple) else [x.args[1]]
+                for c in cands:
+                    nm = unparse(c).split(".")[-1]
+                    if nm in self.h.by_name:
+                        hint = nm
+            elif isinstance(x, ast.AnnAssign) and isinstance(x.target, ast.Name) and x.target.id == name:
+                nm = unparse(x.annotation).strip("'\"").split(".")[-1]
+                if nm in self.h.by_name:
+                    hint = nm
+            elif isinstance(x, ast.Assign) and any(isinstance(t, ast.Name) and t.id == name for t in x.targets) and hint is None:
+                v = x.value
+                if isinstance(v, ast.Attribute) and v.attr in self.ATTR_HINTS:
+                    hint = self.ATTR_HINTS[v.attr]
+                elif isinstance(v, ast.Call):
+                    consts = [a.value for a in v.args if isinstance(a, ast.Constant) and isinstance(a.value, str)]
+                    for c in consts:
+                        if c in self.ATTR_HINTS:
+                            hint = self.ATTR_HINTS[c]
+        cache[key] = hint
+        return hint
 
     def _edges_of(self, f: FuncInfo):
         lst = self.out.setdefault(f.ref, [])
